@@ -17,11 +17,11 @@ import (
 
 // Args common to all drivers.
 type Args struct {
-	Tier   string
-	Seed   int64
-	Out    string
-	Only   string // JSON descriptor of a single case to run (replay)
-	Extra  string
+	Tier  string
+	Seed  int64
+	Out   string
+	Only  string // JSON descriptor of a single case to run (replay)
+	Extra string
 }
 
 var drivers = map[string]func(a Args) tr.Summary{}
